@@ -187,3 +187,162 @@ def project_rows(d, n, gram, u, with_cell=False, max_cc=60):
                 k = 0
             cc.append([i + 1, j + 1, k])
     return rows, cc, off
+
+
+# ------------------------------------------------------------------ molecular crystals (C04, C03, C13, C14)
+COV = {1: 0.23, 6: 0.68, 7: 0.68, 8: 0.68, 9: 0.64}      # used only to *design* inputs; the thresholds shipped
+MASS_Z = {1: 1.00794, 6: 12.0107, 7: 14.0067, 8: 15.9994, 9: 18.998403}   # to TLC are read from the library
+
+
+def det3(g):
+    return _det3(g)
+
+
+def _gdot(gram, d):
+    import numpy as np
+    g = np.asarray(gram, dtype=np.int64)
+    return np.einsum("...i,ij,...j->...", d, g, d)
+
+
+def gen_molecular(rng, row, nmols=1, sizes=(2, 3), n=48, vol_per_atom=32.0, with_h=True, max_tries=400,
+                  boundary_prob=0.6, oblique=False):
+    """A molecular crystal on the grid: `nmols` rigid mini-molecules (trees of bonded atoms) on general
+    positions of setting `row`, bonded distances <= 1.5 A (X-H <= 1.12 A), every other contact >= 2.2 A.
+    Returns a recipe dict (see build_crystal) with 'mols' = list of lists of asym indices (1-based) and
+    'bonds' = list of [i, j] asym index pairs, or None if no placement was found."""
+    import numpy as np
+    ops = row["ops"]
+    nops = len(ops)
+    for attempt in range(max_tries):
+        gram = sym_gram(ops, rng, oblique=oblique, maxentry=1500)
+        szs = [rng.choice(sizes) for _ in range(nmols)]
+        nat = sum(szs)
+        vol = max(nops * nat * vol_per_atom * (1.0 + 0.04 * attempt), 150.0)
+        bprob = boundary_prob if attempt % 3 == 0 else 0.15
+        u = (vol / math.sqrt(det3(gram))) ** (1.0 / 3.0)
+        s2 = u * u / (n * n)                      # Angstrom^2 per grid unit^2
+        rng_d = range(-5, 6)
+        cand = np.array([(a, b, c) for a in rng_d for b in rng_d for c in rng_d if (a, b, c) != (0, 0, 0)],
+                        dtype=np.int64)
+        d2 = _gdot(gram, cand) * s2
+        heavy = cand[(d2 >= 1.15 ** 2) & (d2 <= 1.5 ** 2)]
+        light = cand[(d2 >= 0.85 ** 2) & (d2 <= 1.12 ** 2)]
+        if len(heavy) == 0:
+            continue
+        asym, mols, bonds = [], [], []
+        ok = True
+        for m, size in enumerate(szs):
+            placed = False
+            for _ in range(40):
+                if rng.random() < bprob:
+                    p0 = [rng.choice([rng.randint(-6, 6), n + rng.randint(-6, 6), rng.randrange(n)]) for _ in range(3)]
+                else:
+                    p0 = [rng.randrange(n) for _ in range(3)]
+                pts = [np.array(p0, dtype=np.int64)]
+                zs = [rng.choice([6, 7, 8])]
+                bl = []
+                good = True
+                for k in range(1, size):
+                    parent = rng.randrange(len(pts))
+                    if with_h and len(light) and zs[parent] != 1 and rng.random() < 0.3:
+                        z, vecs = 1, light
+                    else:
+                        z, vecs = rng.choice([6, 7, 8, 9]), heavy
+                        if zs[parent] == 1:
+                            parent = 0
+                    q = pts[parent] + vecs[rng.randrange(len(vecs))]
+                    # every other intramolecular pair must be clearly non-bonded
+                    for j, pj in enumerate(pts):
+                        if j == parent:
+                            continue
+                        if _gdot(gram, (q - pj)[None, :])[0] * s2 < 2.2 ** 2:
+                            good = False
+                    if not good:
+                        break
+                    pts.append(q)
+                    zs.append(z)
+                    bl.append((parent, k))
+                if good:
+                    placed = True
+                    break
+            if not placed:
+                ok = False
+                break
+            base = len(asym)
+            mols.append([base + i + 1 for i in range(len(pts))])
+            for a, b in bl:
+                bonds.append([base + a + 1, base + b + 1])
+            for z, p in zip(zs, pts):
+                asym.append({"z": z, "p": [int(x) for x in p], "occ": 12,
+                             "label": "%s%d" % (SYMBOLS[z], len(asym) + 1)})
+        if not ok:
+            continue
+        # all images, general positions
+        allpts = {}
+        for si, s in enumerate(asym):
+            for c in ops:
+                q = apply_grid(c, s["p"], n)
+                if q in allpts:
+                    ok = False
+                    break
+                allpts[q] = si
+            if not ok:
+                break
+        if not ok:
+            continue
+        uc = np.array(list(allpts.keys()), dtype=np.int64)
+        cells = np.array([(a, b, c) for a in (-2, -1, 0, 1, 2) for b in (-2, -1, 0, 1, 2) for c in (-2, -1, 0, 1, 2)],
+                         dtype=np.int64) * n
+        bonded = {(a, b) for a, b in bonds} | {(b, a) for a, b in bonds}
+        for si, s in enumerate(asym):
+            pa = np.array(s["p"], dtype=np.int64)
+            base = (pa // n) * n
+            diff = (uc[:, None, :] + cells[None, :, :] + base[None, None, :]) - pa[None, None, :]
+            dd = _gdot(gram, diff) * s2
+            close = np.argwhere(dd < 2.2 ** 2)
+            for bi, ci in close:
+                q = uc[bi] + cells[ci] + base
+                # allowed: the atom itself, or an intended bonded partner at its given (unwrapped) position
+                match = [sj for sj, t in enumerate(asym) if tuple(t["p"]) == tuple(int(x) for x in q)]
+                if match and (match[0] == si or (si + 1, match[0] + 1) in bonded):
+                    continue
+                ok = False
+                break
+            if not ok:
+                break
+        if not ok:
+            continue
+        # list the atoms in a random order (molecules interleaved, children before parents, ...)
+        perm = list(range(len(asym)))
+        rng.shuffle(perm)                      # new position i holds old atom perm[i]
+        newidx = {old + 1: i + 1 for i, old in enumerate(perm)}
+        asym = [dict(asym[old]) for old in perm]
+        for i, s in enumerate(asym):
+            s["label"] = "%s%d" % (SYMBOLS[s["z"]], i + 1)
+        mols = [sorted(newidx[a] for a in m) for m in mols]
+        bonds = [[newidx[a], newidx[b]] for a, b in bonds]
+        return {"number": row["number"], "choice": row["choice"], "n": n, "gram": gram, "u": u, "asym": asym,
+                "mols": mols, "bonds": bonds, "route": "params"}
+    return None
+
+
+def bond_table(rec, margin=0.08, tolerance=0.4):
+    """Per element pair: [za, zb, lo, hi] in grid units^2 from the *library's* covalent radii: bonded iff
+    Dist2N <= lo; the domain guard demands that no pair distance lies in (lo, hi]."""
+    from chmpy.core.element import Element
+    n, u = rec["n"], rec["u"]
+    zs = sorted({s["z"] for s in rec["asym"]})
+    out = []
+    for a in zs:
+        for b in zs:
+            thr = Element.from_atomic_number(a).cov + Element.from_atomic_number(b).cov + tolerance
+            lo = int(math.floor(((thr - margin) ** 2) * n * n / (u * u)))
+            hi = int(math.ceil(((thr + margin) ** 2) * n * n / (u * u)))
+            out.append([a, b, lo, hi])
+    return out
+
+
+def mass_table(rec):
+    from chmpy.core.element import Element
+    zs = sorted({s["z"] for s in rec["asym"]})
+    return [[z, int(round(Element.from_atomic_number(z).mass * 1000))] for z in zs]
